@@ -3,6 +3,8 @@ import Mathlib.Algebra.Group.Defs
 import Mathlib.Algebra.BigOperators.Group.List.Basic
 import Mathlib.Data.List.Basic
 import Mathlib.Data.List.Nodup
+import Mathlib.Data.List.ProdSigma
+import Mathlib.Data.List.Perm.Subperm
 import Mathlib.Tactic.Ring
 import Mathlib.Tactic.Abel
 import Mathlib.Tactic.Linarith
@@ -972,6 +974,9 @@ def edge (L : List (Level V)) (i j c : ℕ) : V := (nodeAt (L.getD i []) j).ad c
 def inRange (L : List (Level V)) (e : ℕ × ℕ × ℕ) : Prop :=
   e.1 < L.length ∧ e.2.1 < (L.getD e.1 []).length ∧ e.2.2 < (nodeAt (L.getD e.1 []) e.2.1).adder.length
 
+instance (L : List (Level V)) (e : ℕ × ℕ × ℕ) : Decidable (inRange L e) := by
+  unfold inRange; infer_instance
+
 theorem SameShape.inRange {L L' : List (Level V)} (h : SameShape L L') (e : ℕ × ℕ × ℕ) (hr : inRange L e) :
     inRange L' e := by
   obtain ⟨h1, h2, h3⟩ := hr
@@ -1198,6 +1203,763 @@ theorem concat_spec (els : List (Diagram V)) (d : Diagram V) (h : concatenate el
     have hok : ∀ x ∈ e0 :: rest, ConcOK x := fun x hx => ⟨hwf x hx, hC x hx⟩
     obtain ⟨w1, w2⟩ := wf_go (diamOf (e0 :: rest)) e0 rest hok
     exact ⟨⟨w2, w1⟩, rfl, rfl, hC, fun ass hF => eval_go _ e0 rest hok ass hF⟩
+
+
+
+/-! ### `stack` -/
+
+/-- the arrays are rectangular: every level has `diameter` nodes, every node `C` child slots -/
+def Diagram.Rect (d : Diagram V) : Prop :=
+  1 ≤ d.diameter ∧ ∀ lv ∈ d.levels, lv.length = d.diameter ∧ ∀ nd ∈ lv, nd.child.length = d.C
+
+def offsetOf (els : List (Diagram V)) (i : ℕ) : ℕ := ((els.take i).map (·.diameter)).sum
+def offsetsOf (els : List (Diagram V)) : List ℕ := (List.range els.length).map (offsetOf els)
+def rootsOf (els : List (Diagram V)) : List ℕ := (els.zip (offsetsOf els)).map (fun eo => eo.1.root + eo.2)
+def shiftNode (o : ℕ) (nd : Node V) : Node V := { nd with child := nd.child.map (· + o) }
+def bodyLevel (els : List (Diagram V)) (i : ℕ) : Level V :=
+  (els.zip (offsetsOf els)).flatMap (fun eo => (eo.1.levels.getD i []).map (shiftNode eo.2))
+def hdrLevel (k width : ℕ) (last : ℕ → ℕ → ℕ) (i : ℕ) : Level V :=
+  (List.range width).map (fun j =>
+    if j < 2 ^ i then
+      ({ active := true
+         child := (List.range 2).map (fun c => if i + 1 < k then 2 * j + c else last j c)
+         adder := List.replicate 2 0 } : Node V)
+    else blank 2)
+
+theorem stack_eq (factors : List ℕ) (e0 : Diagram V) (rest : List (Diagram V)) :
+    stack factors (e0 :: rest) =
+      if e0.C ≠ 2 then .error Err.valueError
+      else if (e0 :: rest).length ≠ 2 ^ factors.length then .error Err.valueError
+      else if factors.length = 0 then .error Err.typeError
+      else .ok { units := factors ++ e0.units, C := 2, diameter := ((e0 :: rest).map (·.diameter)).sum, root := 0,
+                 levels := (List.range factors.length).map
+                     (hdrLevel factors.length ((e0 :: rest).map (·.diameter)).sum
+                       (fun j c => (rootsOf (e0 :: rest)).getD (2 * j + c) 0)) ++
+                   (List.range e0.levels.length).map (bodyLevel (e0 :: rest)) } := by
+  unfold stack
+  dsimp only
+  by_cases h1 : e0.C ≠ 2
+  · rw [if_pos h1, if_pos (by simpa using h1)]; rfl
+  rw [if_neg h1, if_neg (by simpa using h1)]
+  by_cases h2 : (e0 :: rest).length ≠ 2 ^ factors.length
+  · rw [if_pos h2, if_pos (by simpa using h2)]; rfl
+  rw [if_neg h2, if_neg (by simpa using h2)]
+  by_cases h3 : factors.length = 0
+  · rw [if_pos h3, if_pos (by simpa using h3)]; rfl
+  rw [if_neg h3, if_neg (by simpa using h3)]; rfl
+
+theorem getElem?_flatMap_block {α β : Type} (l : List α) (g : α → List β) (w : α → ℕ)
+    (hw : ∀ a ∈ l, (g a).length = w a) (m j : ℕ) (hm : m < l.length) (hj : j < w l[m]) :
+    (l.flatMap g)[((l.take m).map w).sum + j]? = (g l[m])[j]? := by
+  induction l generalizing m with
+  | nil => simp at hm
+  | cons a l ih =>
+    cases m with
+    | zero =>
+      simp only [List.take_zero, List.map_nil, List.sum_nil, Nat.zero_add, List.flatMap_cons, List.getElem_cons_zero]
+      simp only [List.getElem_cons_zero] at hj
+      rw [List.getElem?_append_left (by rw [hw a (by simp)]; exact hj)]
+    | succ m =>
+      simp only [List.take_succ_cons, List.map_cons, List.sum_cons, List.flatMap_cons, List.getElem_cons_succ]
+      simp only [List.getElem_cons_succ] at hj
+      rw [List.getElem?_append_right (by rw [hw a (by simp)]; omega)]
+      have := ih (fun a ha => hw a (by simp [ha])) m (by simpa using hm) hj
+      rw [← this, hw a (by simp)]
+      congr 1; omega
+
+
+/-- hypotheses on the elements of a stack: well-formed rectangular binary diagrams of equal depth -/
+structure StackOK (els : List (Diagram V)) (n : ℕ) : Prop where
+  wf : ∀ e ∈ els, e.WF
+  rect : ∀ e ∈ els, e.Rect
+  C2 : ∀ e ∈ els, e.C = 2
+  depth : ∀ e ∈ els, e.levels.length = n
+
+theorem length_offsetsOf (els : List (Diagram V)) : (offsetsOf els).length = els.length := by simp [offsetsOf]
+
+theorem zs_getElem (els : List (Diagram V)) (m : ℕ) (hm : m < els.length) :
+    (els.zip (offsetsOf els))[m]'(by simp [length_offsetsOf, hm]) = (els[m], offsetOf els m) := by
+  simp [offsetsOf]
+
+theorem zs_take_sum (els : List (Diagram V)) (m : ℕ) :
+    (((els.zip (offsetsOf els)).take m).map (fun eo => eo.1.diameter)).sum = offsetOf els m := by
+  have h1 : (els.zip (offsetsOf els)).map Prod.fst = els := List.map_fst_zip (by simp [length_offsetsOf])
+  have : ((els.zip (offsetsOf els)).take m).map (fun eo => eo.1.diameter) =
+      (((els.zip (offsetsOf els)).map Prod.fst).take m).map (·.diameter) := by
+    simp only [List.map_take, List.map_map]; rfl
+  rw [this, h1]; rfl
+
+theorem level_mem {e : Diagram V} {i : ℕ} (hi : i < e.levels.length) : e.levels.getD i [] ∈ e.levels := by
+  rw [List.getD_eq_getElem?_getD, List.getElem?_eq_getElem hi]; exact List.getElem_mem hi
+
+theorem nodeAt_bodyLevel (els : List (Diagram V)) (n : ℕ) (h : StackOK els n) (i : ℕ) (hi : i < n)
+    (m : ℕ) (hm : m < els.length) (j : ℕ) (hj : j < els[m].diameter) :
+    nodeAt (bodyLevel els i) (offsetOf els m + j) =
+      shiftNode (offsetOf els m) (nodeAt (els[m].levels.getD i []) j) := by
+  have hlen : ∀ e ∈ els, (e.levels.getD i []).length = e.diameter := fun e he =>
+    ((h.rect e he).2 _ (level_mem (by rw [h.depth e he]; exact hi))).1
+  have hzl : m < (els.zip (offsetsOf els)).length := by simp [length_offsetsOf, hm]
+  have hb := getElem?_flatMap_block (els.zip (offsetsOf els))
+    (fun eo => (eo.1.levels.getD i []).map (shiftNode eo.2)) (fun eo => eo.1.diameter)
+    (fun eo heo => by
+      simp only [List.length_map]
+      exact hlen _ (List.of_mem_zip heo).1) m j hzl (by rw [zs_getElem els m hm]; exact hj)
+  rw [zs_take_sum, zs_getElem els m hm] at hb
+  have hj' : j < (els[m].levels.getD i []).length := by rw [hlen _ (List.getElem_mem hm)]; exact hj
+  unfold nodeAt bodyLevel
+  simp only [List.getD_eq_getElem?_getD] at hb ⊢
+  rw [hb]
+  simp only [List.getD_eq_getElem?_getD] at hj'
+  rw [List.getElem?_map, List.getElem?_eq_getElem hj']
+  rfl
+
+
+theorem shiftNode_ch (o : ℕ) (nd : Node V) (a : ℕ) (ha : a < nd.child.length) :
+    (shiftNode o nd).ch a = o + nd.ch a := by
+  simp [shiftNode, Node.ch, List.getD_eq_getElem?_getD, ha, Nat.add_comm]
+
+theorem body_from (els : List (Diagram V)) (n : ℕ) (h : StackOK els n) (m : ℕ) (hm : m < els.length)
+    (len i j : ℕ) (hil : i + len = n) (hw : wf 2 (els[m].levels.drop i) j) :
+    wf 2 ((List.range' i len).map (bodyLevel els)) (offsetOf els m + j) ∧
+    ∀ as, (∀ a ∈ as, a < 2) →
+      evalFrom ((List.range' i len).map (bodyLevel els)) (offsetOf els m + j) as =
+        evalFrom (els[m].levels.drop i) j as := by
+  have hem : els[m] ∈ els := List.getElem_mem hm
+  induction len generalizing i j with
+  | zero =>
+    have : els[m].levels.drop i = [] := by
+      apply List.drop_eq_nil_of_le; rw [h.depth _ hem]; omega
+    simp [this, evalFrom, wf]
+  | succ len ih =>
+    have hi : i < els[m].levels.length := by rw [h.depth _ hem]; omega
+    rw [List.drop_eq_getElem_cons hi] at hw ⊢
+    have hlv : els[m].levels.getD i [] = els[m].levels[i] := by
+      rw [List.getD_eq_getElem?_getD, List.getElem?_eq_getElem hi]; rfl
+    have hmem : els[m].levels[i] ∈ els[m].levels := List.getElem_mem hi
+    have hr := (h.rect _ hem).2 _ hmem
+    have hj : j < els[m].levels[i].length := nodeAt_lt_of_active hw.1
+    have hnode := nodeAt_bodyLevel els n h i (by omega) m hm j (by rw [← hr.1]; exact hj)
+    rw [hlv] at hnode
+    have hch : ∀ a, a < 2 → (nodeAt (bodyLevel els i) (offsetOf els m + j)).ch a =
+        offsetOf els m + (nodeAt els[m].levels[i] j).ch a := by
+      intro a ha
+      rw [hnode, shiftNode_ch]
+      rw [nodeAt_eq_getElem hj, hr.2 _ (List.getElem_mem hj), h.C2 _ hem]; exact ha
+    simp only [List.range'_succ, List.map_cons]
+    constructor
+    · refine ⟨by rw [hnode]; exact hw.1, fun c hc => ?_⟩
+      rw [hch c hc]
+      exact (ih (i + 1) _ (by omega) (hw.2 c hc)).1
+    · intro as hC
+      cases as with
+      | nil => simp [evalFrom]
+      | cons a as =>
+        have ha : a < 2 := hC a (by simp)
+        simp only [evalFrom]
+        rw [hch a ha, (ih (i + 1) _ (by omega) (hw.2 a ha)).2 as (fun x hx => hC x (by simp [hx])), hnode]
+        rfl
+
+
+theorem nodeAt_hdrLevel (k width : ℕ) (last : ℕ → ℕ → ℕ) (i j : ℕ) (hj : j < 2 ^ i) (hw : j < width) :
+    nodeAt (hdrLevel (V := V) k width last i) j =
+      { active := true
+        child := (List.range 2).map (fun c => if i + 1 < k then 2 * j + c else last j c)
+        adder := List.replicate 2 0 } := by
+  unfold hdrLevel
+  rw [nodeAt_eq_getElem (by simpa using hw)]
+  simp [hj]
+
+theorem hdr_from (k width : ℕ) (R : ℕ → ℕ) (body : List (Level V)) (hwid : 2 ^ k ≤ width)
+    (hR : ∀ m, m < 2 ^ k → wf 2 body (R m))
+    (len i j : ℕ) (hil : i + (len + 1) = k) (hj : j < 2 ^ i) :
+    wf 2 ((List.range' i (len + 1)).map (hdrLevel k width (fun j c => R (2 * j + c))) ++ body) j ∧
+    ∀ bits as, bits.length = len + 1 → (∀ b ∈ bits, b < 2) →
+      evalFrom ((List.range' i (len + 1)).map (hdrLevel k width (fun j c => R (2 * j + c))) ++ body) j (bits ++ as) =
+        evalFrom body (R (bits.foldl (fun acc b => 2 * acc + b) j)) as := by
+  induction len generalizing i j with
+  | zero =>
+    have hik : ¬ (i + 1 < k) := by omega
+    have hjw : j < width := lt_of_lt_of_le (lt_of_lt_of_le hj (Nat.pow_le_pow_right (by omega) (by omega))) hwid
+    have hch : ∀ c, c < 2 → (nodeAt (hdrLevel (V := V) k width (fun j c => R (2 * j + c)) i) j).ch c = R (2 * j + c) := by
+      intro c hc
+      rw [nodeAt_hdrLevel k width _ i j hj hjw]
+      simp [Node.ch, List.getD_eq_getElem?_getD, hc, hik]
+    simp only [List.range'_succ, List.range'_zero, List.map_cons, List.map_nil, List.cons_append, List.nil_append]
+    constructor
+    · refine ⟨by rw [nodeAt_hdrLevel k width _ i j hj hjw], fun c hc => ?_⟩
+      rw [hch c hc]
+      apply hR
+      have : 2 ^ k = 2 ^ i * 2 := by rw [← pow_succ]; congr 1; omega
+      omega
+    · intro bits as hb hB
+      match bits, hb with
+      | [b], _ =>
+        have hb2 : b < 2 := hB b (by simp)
+        simp only [List.cons_append, List.nil_append, evalFrom, List.foldl_cons, List.foldl_nil]
+        rw [hch b hb2, nodeAt_hdrLevel k width _ i j hj hjw, replicate_ad, zero_add]
+  | succ len ih =>
+    have hik : i + 1 < k := by omega
+    have hjw : j < width := lt_of_lt_of_le (lt_of_lt_of_le hj (Nat.pow_le_pow_right (by omega) (by omega))) hwid
+    have hch : ∀ c, c < 2 → (nodeAt (hdrLevel (V := V) k width (fun j c => R (2 * j + c)) i) j).ch c = 2 * j + c := by
+      intro c hc
+      rw [nodeAt_hdrLevel k width _ i j hj hjw]
+      simp [Node.ch, List.getD_eq_getElem?_getD, hc, hik]
+    have hnext : ∀ c, c < 2 → 2 * j + c < 2 ^ (i + 1) := by
+      intro c hc; rw [pow_succ]; omega
+    rw [List.range'_succ]
+    simp only [List.map_cons, List.cons_append]
+    constructor
+    · refine ⟨by rw [nodeAt_hdrLevel k width _ i j hj hjw], fun c hc => ?_⟩
+      rw [hch c hc]
+      exact (ih (i + 1) _ (by omega) (hnext c hc)).1
+    · intro bits as hb hB
+      match bits, hb with
+      | b :: bits', hb =>
+        have hb2 : b < 2 := hB b (by simp)
+        simp only [List.cons_append, evalFrom, List.foldl_cons]
+        rw [hch b hb2, nodeAt_hdrLevel k width _ i j hj hjw, replicate_ad, zero_add]
+        exact (ih (i + 1) _ (by omega) (hnext b hb2)).2 bits' as (by simpa using hb) (fun x hx => hB x (by simp [hx]))
+
+
+/-- the number whose binary digits (most significant first) are `bits` -/
+def bitsVal (bits : List ℕ) : ℕ := bits.foldl (fun acc b => 2 * acc + b) 0
+
+theorem foldl_bits_lt (bits : List ℕ) (hB : ∀ b ∈ bits, b < 2) (j : ℕ) :
+    bits.foldl (fun acc b => 2 * acc + b) j < 2 ^ bits.length * (j + 1) := by
+  induction bits generalizing j with
+  | nil => simp
+  | cons b bits ih =>
+    have hb : b < 2 := hB b (by simp)
+    have := ih (fun x hx => hB x (by simp [hx])) (2 * j + b)
+    simp only [List.foldl_cons, List.length_cons, pow_succ]
+    calc _ < 2 ^ bits.length * (2 * j + b + 1) := this
+      _ ≤ 2 ^ bits.length * (2 * (j + 1)) := Nat.mul_le_mul_left _ (by omega)
+      _ = _ := by ring
+
+theorem bitsVal_lt (bits : List ℕ) (hB : ∀ b ∈ bits, b < 2) : bitsVal bits < 2 ^ bits.length := by
+  unfold bitsVal; simpa using foldl_bits_lt bits hB 0
+
+theorem rootsOf_getD (els : List (Diagram V)) (m : ℕ) (hm : m < els.length) :
+    (rootsOf els).getD m 0 = offsetOf els m + els[m].root := by
+  unfold rootsOf
+  have hzl : m < (els.zip (offsetsOf els)).length := by simp [length_offsetsOf, hm]
+  rw [List.getD_eq_getElem?_getD, List.getElem?_map, List.getElem?_eq_getElem hzl, zs_getElem els m hm]
+  simp [Nat.add_comm]
+
+theorem sum_diam_zs (els : List (Diagram V)) :
+    ((els.zip (offsetsOf els)).map (fun eo => eo.1.diameter)).sum = (els.map (·.diameter)).sum := by
+  have h1 : (els.zip (offsetsOf els)).map Prod.fst = els := List.map_fst_zip (by simp [length_offsetsOf])
+  conv_rhs => rw [← h1, List.map_map]
+  rfl
+
+theorem stack_spec (factors : List ℕ) (e0 : Diagram V) (rest : List (Diagram V)) (d : Diagram V) (n : ℕ)
+    (h : stack factors (e0 :: rest) = .ok d) (hok : StackOK (e0 :: rest) n) :
+    d.WF ∧ d.Rect ∧ d.C = 2 ∧ d.units = factors ++ e0.units ∧ (e0 :: rest).length = 2 ^ factors.length ∧
+    ∀ bits as, bits.length = factors.length → (∀ b ∈ bits, b < 2) → (∀ a ∈ as, a < 2) →
+      ∃ hm : bitsVal bits < (e0 :: rest).length, d.eval (bits ++ as) = ((e0 :: rest)[bitsVal bits]).eval as := by
+  rw [stack_eq] at h
+  by_cases h1 : e0.C ≠ 2
+  · rw [if_pos h1] at h; cases h
+  rw [if_neg h1] at h
+  by_cases h2 : (e0 :: rest).length ≠ 2 ^ factors.length
+  · rw [if_pos h2] at h; cases h
+  rw [if_neg h2] at h
+  by_cases h3 : factors.length = 0
+  · rw [if_pos h3] at h; cases h
+  rw [if_neg h3] at h
+  simp only [Except.ok.injEq] at h
+  subst h
+  have h2' : (e0 :: rest).length = 2 ^ factors.length := not_not.mp h2
+  generalize hels : e0 :: rest = els at *
+  have he0 : e0 ∈ els := by rw [← hels]; simp
+  have hn : e0.levels.length = n := hok.depth e0 he0
+  set k := factors.length with hk
+  set width := (els.map (·.diameter)).sum with hwidth
+  have hwid : 2 ^ k ≤ width := by
+    rw [← h2', ← List.length_map (f := fun x : Diagram V => x.diameter)]
+    apply List.length_le_sum_of_one_le
+    intro i hi
+    simp only [List.mem_map] at hi
+    obtain ⟨e, he, rfl⟩ := hi
+    exact (hok.rect e he).1
+  have hbody : ∀ m (hm : m < els.length),
+      wf 2 ((List.range n).map (bodyLevel els)) (offsetOf els m + els[m].root) ∧
+      ∀ as, (∀ a ∈ as, a < 2) →
+        evalFrom ((List.range n).map (bodyLevel els)) (offsetOf els m + els[m].root) as = els[m].eval as := by
+    intro m hm
+    have hem : els[m] ∈ els := List.getElem_mem hm
+    have := body_from els n hok m hm n 0 els[m].root (by omega)
+      (by rw [List.drop_zero, ← hok.C2 _ hem]; exact (hok.wf _ hem).reach)
+    rw [List.range_eq_range']
+    simpa [Diagram.eval] using this
+  have hR : ∀ m, m < 2 ^ k → wf 2 ((List.range n).map (bodyLevel els)) ((rootsOf els).getD m 0) := by
+    intro m hm
+    rw [rootsOf_getD els m (by omega)]
+    exact (hbody m (by omega)).1
+  obtain ⟨len, hlen⟩ : ∃ len, k = len + 1 := ⟨k - 1, by omega⟩
+  have hhdr := hdr_from k width (fun m => (rootsOf els).getD m 0) ((List.range n).map (bodyLevel els)) hwid hR
+    len 0 0 (by omega) (by simp)
+  rw [← hlen, ← List.range_eq_range'] at hhdr
+  rw [hn]
+  refine ⟨⟨?_, hhdr.1⟩, ⟨?_, ?_⟩, rfl, rfl, h2', ?_⟩
+  · simp [(hok.wf e0 he0).len ▸ hn, hk]
+  · exact le_trans Nat.one_le_two_pow hwid
+  · intro lv hlv
+    simp only [List.mem_append, List.mem_map, List.mem_range] at hlv
+    rcases hlv with ⟨i, _, rfl⟩ | ⟨i, hi, rfl⟩
+    · refine ⟨by simp [hdrLevel], ?_⟩
+      intro nd hnd
+      simp only [hdrLevel, List.mem_map, List.mem_range] at hnd
+      obtain ⟨j, _, rfl⟩ := hnd
+      split <;> simp [blank]
+    · have hlenlv : ∀ e ∈ els, (e.levels.getD i []).length = e.diameter := fun e he =>
+        ((hok.rect e he).2 _ (level_mem (by rw [hok.depth e he]; exact hi))).1
+      constructor
+      · unfold bodyLevel
+        rw [List.length_flatMap]
+        show _ = width
+        rw [hwidth, ← sum_diam_zs]
+        congr 1
+        apply List.map_congr_left
+        intro eo heo
+        simp only [List.length_map]
+        exact hlenlv _ (List.of_mem_zip heo).1
+      · intro nd hnd
+        simp only [bodyLevel, List.mem_flatMap, List.mem_map] at hnd
+        obtain ⟨eo, heo, nd', hnd', rfl⟩ := hnd
+        have he := (List.of_mem_zip heo).1
+        simp only [shiftNode, List.length_map]
+        rw [((hok.rect _ he).2 _ (level_mem (by rw [hok.depth _ he]; exact hi))).2 _ hnd', hok.C2 _ he]
+  · intro bits as hb hB hC
+    have hm : bitsVal bits < els.length := by rw [h2', ← hb]; exact bitsVal_lt bits hB
+    refine ⟨hm, ?_⟩
+    have := hhdr.2 bits as (by omega) hB
+    simp only [Diagram.eval]
+    rw [this]
+    show evalFrom _ ((rootsOf els).getD (bitsVal bits) 0) as = _
+    rw [rootsOf_getD els _ hm]
+    exact (hbody _ hm).2 as hC
+
+
+/-! ### rectangularity is preserved -/
+
+/-- a level of the right shape -/
+def LevelRect (C diam : ℕ) (lv : Level V) : Prop := lv.length = diam ∧ ∀ nd ∈ lv, nd.child.length = C
+
+theorem rect_iff (d : Diagram V) : d.Rect ↔ 1 ≤ d.diameter ∧ ∀ lv ∈ d.levels, LevelRect d.C d.diameter lv := Iff.rfl
+
+theorem chain_rect (units : List ℕ) (C : ℕ) : (chain units C : Diagram V).Rect := by
+  refine ⟨le_refl _, ?_⟩
+  intro lv hlv
+  simp only [chain, List.mem_map] at hlv
+  obtain ⟨_, _, rfl⟩ := hlv
+  exact ⟨rfl, by simp [liveZero, chain]⟩
+
+theorem tree_rect (units : List ℕ) (C : ℕ) (d : Diagram V) (h : tree units C = .ok d) : d.Rect := by
+  have hC := (tree_spec units C d h).2.2.2.1
+  rw [tree_eq] at h
+  by_cases h0 : units.length = 0
+  · rw [if_pos h0] at h; cases h
+  by_cases h1 : C ≠ 2 ∧ 2 ≤ units.length
+  · rw [if_neg h0, if_pos h1] at h; cases h
+  rw [if_neg h0, if_neg h1] at h
+  simp only [Except.ok.injEq] at h
+  subst h
+  constructor
+  · show 1 ≤ C ^ (units.length - 1)
+    rcases hC with rfl | h
+    · exact Nat.one_le_two_pow
+    · rw [h]; simp
+  · intro lv hlv
+    simp only [List.mem_map, List.mem_range] at hlv
+    obtain ⟨i, _, rfl⟩ := hlv
+    unfold treeLevel
+    split
+    · refine ⟨by simp, ?_⟩
+      intro nd hnd
+      simp only [List.mem_map, List.mem_range] at hnd
+      obtain ⟨j, _, rfl⟩ := hnd
+      split <;> simp [blank]
+    · refine ⟨by simp, ?_⟩
+      intro nd hnd
+      rw [List.mem_replicate] at hnd
+      rw [hnd.2]; simp [liveZero]
+
+theorem levelRect_of_shape {C diam : ℕ} {la lb : Level V} (h : List.Forall₂ NodeShape la lb)
+    (hr : LevelRect C diam la) : LevelRect C diam lb := by
+  refine ⟨h.length_eq ▸ hr.1, ?_⟩
+  intro nd hnd
+  obtain ⟨j, hj, rfl⟩ := List.getElem_of_mem hnd
+  have hj' : j < la.length := by rw [h.length_eq]; exact hj
+  have := nodeShape_nodeAt h j
+  rw [nodeAt_eq_getElem hj, nodeAt_eq_getElem hj'] at this
+  rw [← this.2.1]; exact hr.2 _ (List.getElem_mem hj')
+
+theorem SameShape.rect {L L' : List (Level V)} (h : SameShape L L') (C diam : ℕ)
+    (hr : ∀ lv ∈ L, LevelRect C diam lv) : ∀ lv ∈ L', LevelRect C diam lv := by
+  induction h with
+  | nil => simp
+  | cons h _ ih =>
+    intro lv hlv
+    simp only [List.mem_cons] at hlv
+    rcases hlv with rfl | hlv
+    · exact levelRect_of_shape h (hr _ (by simp))
+    · exact ih (fun lv' h' => hr lv' (by simp [h'])) lv hlv
+
+theorem update_rect (d : Diagram V) (loc : List (ℕ × ℕ × ℕ)) (v : V) (inc : Bool) (h : d.Rect) :
+    (d.update loc v inc).Rect :=
+  ⟨h.1, (foldl_upd1_shape v inc loc d.levels).rect _ _ h.2⟩
+
+theorem foldInto_rect (C diam : ℕ) (lv next : Level V) (value : ℕ) (h : LevelRect C diam lv) :
+    LevelRect C diam (foldInto C lv next value) := by
+  refine ⟨by simp [foldInto, h.1], ?_⟩
+  intro nd hnd
+  simp only [foldInto, List.mem_map] at hnd
+  obtain ⟨nd', hnd', rfl⟩ := hnd
+  split
+  · simp
+  · exact h.2 _ hnd'
+
+theorem restrictPos_rect (C diam k value : ℕ) (L : List (Level V)) (h : ∀ lv ∈ L, LevelRect C diam lv) :
+    ∀ lv ∈ restrictPos C k value L, LevelRect C diam lv := by
+  induction k generalizing L with
+  | zero =>
+    match L with
+    | lv :: next :: rest =>
+      intro x hx
+      simp only [restrictPos, List.mem_cons] at hx
+      rcases hx with rfl | hx
+      · exact foldInto_rect C diam lv next value (h lv (by simp))
+      · exact h x (by simp [hx])
+    | [_] => exact h
+    | [] => exact h
+  | succ k ih =>
+    match L with
+    | lv :: rest =>
+      intro x hx
+      simp only [restrictPos, List.mem_cons] at hx
+      rcases hx with rfl | hx
+      · exact h _ (by simp)
+      · exact ih rest (fun y hy => h y (by simp [hy])) x hx
+    | [] => exact h
+
+theorem levelRect_modify (C diam : ℕ) (lv : Level V) (i : ℕ) (f : Node V → Node V)
+    (hf : ∀ nd, (f nd).child = nd.child) (h : LevelRect C diam lv) : LevelRect C diam (lv.modify i f) := by
+  refine ⟨by simp [h.1], ?_⟩
+  intro nd hnd
+  obtain ⟨j, hj, rfl⟩ := List.getElem_of_mem hnd
+  have hj' : j < lv.length := by simpa using hj
+  rw [List.getElem_modify]
+  split
+  · rw [hf]; exact h.2 _ (List.getElem_mem hj')
+  · exact h.2 _ (List.getElem_mem hj')
+
+theorem restrict_rect (d d' : Diagram V) (u c : ℕ) (hr : d.Rect) (h : d.restrict u c = .ok d') : d'.Rect := by
+  by_cases hu : u ∈ d.units
+  swap
+  · rw [restrict_notMem d u c hu] at h; cases h
+  by_cases hc : c < d.C
+  swap
+  · rw [restrict_ge d u c hu (Nat.le_of_not_lt hc)] at h; cases h
+  by_cases h0 : d.units.idxOf u = 0
+  · rw [restrict_first d u c hu hc h0] at h
+    match hL : d.levels with
+    | lv :: next :: rest =>
+      rw [hL] at h
+      by_cases hlt : (nodeAt lv d.root).ch c < next.length
+      · have : restrictRoot d.C d.root c (lv :: next :: rest) =
+            .ok ((nodeAt lv d.root).ch c,
+              next.modify ((nodeAt lv d.root).ch c) (pushRoot d.C ((nodeAt lv d.root).ad c)) :: rest) := by
+          simp only [restrictRoot, if_pos hlt]; rfl
+        rw [this] at h
+        simp only [Except.ok.injEq] at h
+        subst h
+        refine ⟨hr.1, ?_⟩
+        intro x hx
+        simp only [List.mem_cons] at hx
+        rcases hx with rfl | hx
+        · have hn : LevelRect d.C d.diameter next := hr.2 next (by rw [hL]; simp)
+          exact levelRect_modify _ _ _ _ _ (fun nd => rfl) hn
+        · exact hr.2 x (by rw [hL]; simp [hx])
+      · have : restrictRoot d.C d.root c (lv :: next :: rest) = .error Err.indexError := by
+          simp only [restrictRoot, if_neg hlt]; rfl
+        rw [this] at h; cases h
+    | [_] => rw [hL] at h; cases h
+    | [] => rw [hL] at h; cases h
+  · rw [restrict_later d u c hu hc h0] at h
+    simp only [Except.ok.injEq] at h
+    subst h
+    exact ⟨hr.1, restrictPos_rect _ _ _ _ _ hr.2⟩
+
+
+theorem foldl_max_ge (l : List ℕ) (a : ℕ) : a ≤ l.foldl max a ∧ ∀ x ∈ l, x ≤ l.foldl max a := by
+  induction l generalizing a with
+  | nil => simp
+  | cons b l ih =>
+    obtain ⟨h1, h2⟩ := ih (max a b)
+    simp only [List.foldl_cons, List.mem_cons]
+    refine ⟨le_trans (le_max_left a b) h1, ?_⟩
+    rintro x (rfl | hx)
+    · exact le_trans (le_max_right a x) h1
+    · exact h2 x hx
+
+theorem forall_mem_modify {α} {P : α → Prop} {l : List α} (f : α → α) (i : ℕ) (hP : ∀ x ∈ l, P x)
+    (hf : ∀ x, P x → P (f x)) : ∀ x ∈ l.modify i f, P x := by
+  induction l generalizing i with
+  | nil => simp
+  | cons a l ih =>
+    cases i with
+    | zero =>
+      simp only [List.modify_zero_cons, List.mem_cons]
+      rintro x (rfl | hx)
+      · exact hf a (hP a (by simp))
+      · exact hP x (by simp [hx])
+    | succ i =>
+      simp only [List.modify_succ_cons, List.mem_cons]
+      rintro x (rfl | hx)
+      · exact hP _ (by simp)
+      · exact ih i (fun y hy => hP y (by simp [hy])) x hx
+
+theorem padLevel_rect (C dE diam : ℕ) (lv : Level V) (h : LevelRect C dE lv) (hle : dE ≤ diam) :
+    LevelRect C diam (padLevel C lv diam) := by
+  refine ⟨by simp [padLevel, h.1]; omega, ?_⟩
+  intro nd hnd
+  simp only [padLevel, List.mem_append, List.mem_replicate] at hnd
+  rcases hnd with hnd | ⟨_, rfl⟩
+  · exact h.2 nd hnd
+  · simp [blank]
+
+theorem redirect_rect (diam r : ℕ) (lv : Level V) (h : LevelRect 2 diam lv) : LevelRect 2 diam (redirect r lv) := by
+  refine ⟨by simp [redirect, h.1], ?_⟩
+  intro nd hnd
+  simp only [redirect, List.mem_map] at hnd
+  obtain ⟨nd', hnd', rfl⟩ := hnd
+  split
+  · simp
+  · exact h.2 _ hnd'
+
+theorem go_rect (diam : ℕ) (els : List (Diagram V))
+    (h : ∀ e ∈ els, e.Rect ∧ e.C = 2 ∧ e.diameter ≤ diam) :
+    ∀ lv ∈ concatenate.go diam els, LevelRect 2 diam lv := by
+  have hpad : ∀ e ∈ els, ∀ lv ∈ e.levels.map (padLevel 2 · diam), LevelRect 2 diam lv := by
+    intro e he lv hlv
+    simp only [List.mem_map] at hlv
+    obtain ⟨lv', hlv', rfl⟩ := hlv
+    obtain ⟨h1, h2, h3⟩ := h e he
+    exact padLevel_rect 2 e.diameter diam lv' (h2 ▸ h1.2 lv' hlv') h3
+  match els with
+  | [] => simp [concatenate.go]
+  | [e] => rw [concatenate.go.eq_2]; exact hpad e (by simp)
+  | e :: e' :: rest =>
+    rw [go_cons_cons]
+    intro lv hlv
+    rw [List.mem_append] at hlv
+    rcases hlv with hlv | hlv
+    · exact forall_mem_modify _ _ (hpad e (by simp)) (fun x hx => redirect_rect diam _ x hx) lv hlv
+    · exact go_rect diam (e' :: rest) (fun x hx => h x (by simp [hx])) lv hlv
+
+theorem concat_rect (els : List (Diagram V)) (d : Diagram V) (h : concatenate els = .ok d)
+    (hr : ∀ e ∈ els, e.Rect) : d.Rect := by
+  cases els with
+  | nil => cases h
+  | cons e0 rest =>
+    rw [concatenate_eq] at h
+    by_cases h1 : ∃ e ∈ e0 :: rest, e.C ≠ e0.C
+    · rw [if_pos h1] at h; cases h
+    rw [if_neg h1] at h
+    by_cases h2 : e0.C ≠ 2
+    · rw [if_pos h2] at h; cases h
+    rw [if_neg h2] at h
+    by_cases h3 : ∃ e ∈ e0 :: rest, e.units = []
+    · rw [if_pos h3] at h; cases h
+    rw [if_neg h3] at h
+    simp only [Except.ok.injEq] at h
+    subst h
+    have hC2 : ∀ e ∈ e0 :: rest, e.C = 2 := by
+      intro e he
+      have : e.C = e0.C := by by_contra hh; exact h1 ⟨e, he, hh⟩
+      rw [this]; exact not_not.mp h2
+    have hle : ∀ e ∈ e0 :: rest, e.diameter ≤ diamOf (e0 :: rest) := by
+      intro e he
+      exact (foldl_max_ge _ 0).2 _ (List.mem_map.mpr ⟨e, he, rfl⟩)
+    refine ⟨le_trans (hr e0 (by simp)).1 (hle e0 (by simp)), ?_⟩
+    exact go_rect _ _ (fun e he => ⟨hr e he, hC2 e he, hle e he⟩)
+
+
+/-! rectangularity of `sum`: the interned tables are duplicate-free lists of pairs of reachable nodes -/
+
+theorem intern_nodup (tbl : List Pair) (p : Pair) (h : tbl.Nodup) :
+    (intern tbl p).1.Nodup ∧ ∀ q ∈ (intern tbl p).1, q ∈ tbl ∨ q = p := by
+  unfold intern
+  by_cases hp : tbl.idxOf p < tbl.length
+  · simp only [hp, if_true]; exact ⟨h, fun q hq => Or.inl hq⟩
+  · simp only [hp, if_false]
+    have hnm : p ∉ tbl := fun hm => hp (List.idxOf_lt_length_iff.mpr hm)
+    refine ⟨?_, fun q hq => by simpa using hq⟩
+    rw [List.nodup_append]
+    refine ⟨h, by simp, ?_⟩
+    intro a ha b hb
+    simp only [List.mem_singleton] at hb
+    subst hb
+    intro hab; subst hab; exact hnm ha
+
+theorem internAll_nodup (tbl ps : List Pair) (h : tbl.Nodup) :
+    (internAll tbl ps).1.Nodup ∧ ∀ q ∈ (internAll tbl ps).1, q ∈ tbl ∨ q ∈ ps := by
+  induction ps generalizing tbl with
+  | nil => simp [internAll, h]
+  | cons p ps ih =>
+    obtain ⟨h1, h2⟩ := intern_nodup tbl p h
+    obtain ⟨g1, g2⟩ := ih (intern tbl p).1 h1
+    refine ⟨by simpa [internAll] using g1, ?_⟩
+    intro q hq
+    have hq' : q ∈ (internAll (intern tbl p).1 ps).1 := by simpa [internAll] using hq
+    rcases g2 q hq' with hq1 | hq1
+    · rcases h2 q hq1 with hq2 | hq2
+      · exact Or.inl hq2
+      · right; simp [hq2]
+    · right; simp [hq1]
+
+theorem sumLevel_nodup (C : ℕ) (la lb : Level V) (tbl pairs : List Pair) (h : tbl.Nodup) :
+    (sumLevel C la lb tbl pairs).1.Nodup ∧
+      ∀ q ∈ (sumLevel C la lb tbl pairs).1, q ∈ tbl ∨ ∃ p ∈ pairs, q ∈ reqs C la lb p := by
+  induction pairs generalizing tbl with
+  | nil => simp [sumLevel, h]
+  | cons p ps ih =>
+    obtain ⟨h1, h2⟩ := internAll_nodup tbl (reqs C la lb p) h
+    obtain ⟨g1, g2⟩ := ih (internAll tbl (reqs C la lb p)).1 h1
+    refine ⟨by simpa [sumLevel] using g1, ?_⟩
+    intro q hq
+    have hq' : q ∈ (sumLevel C la lb (internAll tbl (reqs C la lb p)).1 ps).1 := by simpa [sumLevel] using hq
+    rcases g2 q hq' with hq1 | ⟨p', hp', hq1⟩
+    · rcases h2 q hq1 with hq2 | hq2
+      · exact Or.inl hq2
+      · exact Or.inr ⟨p, by simp, hq2⟩
+    · exact Or.inr ⟨p', by simp [hp'], hq1⟩
+
+theorem sumLevel_child (C : ℕ) (la lb : Level V) (tbl pairs : List Pair) :
+    ∀ nd ∈ (sumLevel C la lb tbl pairs).2, nd.child.length = C := by
+  induction pairs generalizing tbl with
+  | nil => simp [sumLevel]
+  | cons p ps ih =>
+    intro nd hnd
+    simp only [sumLevel, List.mem_cons] at hnd
+    rcases hnd with rfl | hnd
+    · have := (internAll_spec tbl (reqs C la lb p)).2.1
+      simpa [reqs] using this
+    · exact ih _ nd hnd
+
+theorem length_le_of_nodup_range (l : List Pair) (hnd : l.Nodup) (a b : ℕ) (h : ∀ p ∈ l, p.1 < a ∧ p.2 < b) :
+    l.length ≤ a * b := by
+  have hsub : l ⊆ (List.range a ×ˢ List.range b) := by
+    intro p hp
+    obtain ⟨x, y⟩ := p
+    rw [List.mem_product]
+    simpa using h _ hp
+  have := (List.subperm_of_subset hnd hsub).length_le
+  simpa [List.length_product] using this
+
+theorem sumLevels_rect (C da db : ℕ) (LA LB : List (Level V)) (hA : ∀ lv ∈ LA, lv.length = da)
+    (hB : ∀ lv ∈ LB, lv.length = db) (pairs : List Pair) (hnd : pairs.Nodup)
+    (hw : ∀ p ∈ pairs, wf C LA p.1 ∧ wf C LB p.2) :
+    ∀ lv ∈ sumLevels C LA LB pairs, lv.length ≤ da * db ∧ ∀ nd ∈ lv, nd.child.length = C := by
+  induction LA generalizing LB pairs with
+  | nil => simp [sumLevels]
+  | cons la ra ih =>
+    cases LB with
+    | nil => simp [sumLevels]
+    | cons lb rb =>
+      intro lv hlv
+      simp only [sumLevels, List.mem_cons] at hlv
+      rcases hlv with rfl | hlv
+      · refine ⟨?_, sumLevel_child C la lb [] pairs⟩
+        rw [sumLevel_length]
+        apply length_le_of_nodup_range pairs hnd
+        intro p hp
+        obtain ⟨w1, w2⟩ := hw p hp
+        exact ⟨hA la (by simp) ▸ nodeAt_lt_of_active w1.1, hB lb (by simp) ▸ nodeAt_lt_of_active w2.1⟩
+      · obtain ⟨n1, n2⟩ := sumLevel_nodup C la lb [] pairs List.nodup_nil
+        refine ih rb (fun x hx => hA x (by simp [hx])) (fun x hx => hB x (by simp [hx])) _ n1 ?_ lv hlv
+        intro q hq
+        rcases n2 q hq with hq1 | ⟨p, hp, hq1⟩
+        · simp at hq1
+        · simp only [reqs, List.mem_map, List.mem_range] at hq1
+          obtain ⟨c, hc, rfl⟩ := hq1
+          obtain ⟨w1, w2⟩ := hw p hp
+          exact ⟨w1.2 c hc, w2.2 c hc⟩
+
+theorem sum_rect (a b s : Diagram V) (ha : a.WF) (hb : b.WF) (ra : a.Rect) (rb : b.Rect)
+    (h : a.sum b = .ok s) : s.Rect := by
+  rw [sum_eq] at h
+  by_cases hne : a.units ≠ b.units ∨ a.C ≠ b.C
+  · rw [if_pos hne] at h; cases h
+  rw [if_neg hne] at h
+  simp only [Except.ok.injEq] at h
+  subst h
+  have hC : a.C = b.C := by by_contra hh; exact hne (Or.inr hh)
+  refine ⟨Nat.mul_pos ra.1 rb.1, ?_⟩
+  intro lv hlv
+  simp only [List.mem_map] at hlv
+  obtain ⟨lv', hlv', rfl⟩ := hlv
+  have := sumLevels_rect a.C a.diameter b.diameter a.levels b.levels (fun x hx => (ra.2 x hx).1)
+    (fun x hx => (rb.2 x hx).1) [(a.root, b.root)] (by simp)
+    (by intro p hp; simp only [List.mem_singleton] at hp; subst hp; exact ⟨ha.reach, hC ▸ hb.reach⟩) lv' hlv'
+  refine ⟨by simp only [padLevel, List.length_append, List.length_replicate]; omega, ?_⟩
+  intro nd hnd
+  simp only [padLevel, List.mem_append, List.mem_replicate] at hnd
+  rcases hnd with hnd | ⟨_, rfl⟩
+  · exact this.2 nd hnd
+  · simp [blank]
+
+
+
+/-! ### histories -/
+
+theorem restrict_two_le (d d' : Diagram V) (u c : ℕ) (hwf : d.WF) (h : d.restrict u c = .ok d') :
+    2 ≤ d.units.length := by
+  by_cases hu : u ∈ d.units
+  swap
+  · rw [restrict_notMem d u c hu] at h; cases h
+  by_cases hc : c < d.C
+  swap
+  · rw [restrict_ge d u c hu (Nat.le_of_not_lt hc)] at h; cases h
+  by_contra hlt
+  have h1 : d.units.length = 1 := by
+    have := List.length_pos_of_mem hu; omega
+  rw [restrict_single d u c (by rw [hwf.len]; omega) h1 hu hc] at h
+  cases h
+
+/-- the diagrams that can be built with the constructors and operations of `add.py` -/
+inductive Reach : Diagram V → Prop
+  | chain (units : List ℕ) (C : ℕ) : Reach (chain units C)
+  | tree (units : List ℕ) (C : ℕ) (d : Diagram V) : tree units C = .ok d → Reach d
+  | concat (els : List (Diagram V)) (d : Diagram V) :
+      (∀ e ∈ els, Reach e) → concatenate els = .ok d → Reach d
+  | stack (factors : List ℕ) (els : List (Diagram V)) (d : Diagram V) (n : ℕ) :
+      (∀ e ∈ els, Reach e) → (∀ e ∈ els, e.C = 2 ∧ e.units.length = n) → stack factors els = .ok d → Reach d
+  | update (d : Diagram V) (loc : List (ℕ × ℕ × ℕ)) (v : V) (inc : Bool) : Reach d → Reach (d.update loc v inc)
+  | restrict (d d' : Diagram V) (u c : ℕ) : Reach d → d.restrict u c = .ok d' → Reach d'
+  | sum (a b s : Diagram V) : Reach a → Reach b → a.sum b = .ok s → Reach s
+
+theorem Reach.inv {d : Diagram V} (h : Reach d) : d.WF ∧ d.Rect := by
+  induction h with
+  | chain units C => exact ⟨chain_wf units C, chain_rect units C⟩
+  | tree units C d h => exact ⟨(tree_spec units C d h).1, tree_rect units C d h⟩
+  | concat els d _ h ih =>
+    exact ⟨(concat_spec els d h (fun e he => (ih e he).1)).1, concat_rect els d h (fun e he => (ih e he).2)⟩
+  | stack factors els d n _ hside h ih =>
+    cases els with
+    | nil => cases h
+    | cons e0 rest =>
+      have hok : StackOK (e0 :: rest) n :=
+        ⟨fun e he => (ih e he).1, fun e he => (ih e he).2, fun e he => (hside e he).1,
+          fun e he => by rw [(ih e he).1.len]; exact (hside e he).2⟩
+      have := stack_spec factors e0 rest d n h hok
+      exact ⟨this.1, this.2.1⟩
+  | update d loc v inc _ ih => exact ⟨update_wf d loc v inc ih.1, update_rect d loc v inc ih.2⟩
+  | restrict d d' u c _ h ih =>
+    exact ⟨(restrict_spec d d' u c ih.1 (restrict_two_le d d' u c ih.1 h) h).2.2.1, restrict_rect d d' u c ih.2 h⟩
+  | sum a b s _ _ h iha ihb =>
+    exact ⟨(sum_spec a b s iha.1 ihb.1 h).2.2.1, sum_rect a b s iha.1 ihb.1 iha.2 ihb.2 h⟩
 
 
 end Ds.Dd
